@@ -90,7 +90,7 @@ func c11Band(t *testing.T, st *kvh.Stats) {
 		for s := int64(0); s < 28; s++ {
 			starts = append(starts, s, kvh.BlockSize-1-s)
 		}
-		for s := int64(29) + (e.Seed*31)%251; s < kvh.BlockSize-29; s += 251 {
+		for s := int64(29) + (e.Seed*31)%17; s < kvh.BlockSize-29; s += 17 {
 			starts = append(starts, s)
 		}
 	}
